@@ -308,9 +308,9 @@ def flag_assignments(fnode, flag):
 
 def r_assign(ctx, g):
     rid = "C03.assign"
-    ctx.rule(rid, "assign_t_choice ('/=') <-> is_type_choice_alternate, assign_g_choice ('//=') <-> "
-                  "is_group_choice_alternate, socket_type ('$') <-> SocketPlug::TYPE, socket_group ('$$') <-> "
-                  "SocketPlug::GROUP, range_op_inclusive ('..') <-> is_inclusive", floor=5)
+    ctx.rule(rid, "the grammar spells the assignment, socket and range operators as RFC 8610 does (= /= //= $ $$ .. ...) and offers exactly "
+                  "{=, /=} for type rules, {=, //=} for group rules and {.., ...} as range operators; how the converters map them to AST "
+                  "flags is decided semantically by C03.rulehead and C03.type1", floor=7)
     f = ctx.facts
     # grammar literals
     exp = {"assign": "=", "assign_t_choice": "/=", "assign_g_choice": "//=", "socket_type": "$", "socket_group": "$$",
@@ -329,67 +329,6 @@ def r_assign(ctx, g):
         got = g.children(r)
         if got != want:
             ctx.violation(rid, "grammar:%s" % r, "cddl.pest", g.rules[r]["l"], "rule %s offers %s, expected %s" % (r, sorted(got), sorted(want)))
-    fi = f.fn(BRIDGE, "convert_rule")
-
-    def check_flag(flag, rule_name, arm_rule):
-        found = False
-        for m in vf.find(fi.node, "match"):
-            for arm in m["arms"]:
-                if vf.pat_path(arm["pat"]) == "Rule::" + arm_rule:
-                    # inside: if x.as_rule() == Rule::<rule_name> { flag = true }
-                    for i in vf.find(arm["body"], "if"):
-                        c = vf.src(i["c"])
-                        sets = [a for a in flag_assignments(i["t"], flag)]
-                        if sets:
-                            found = True
-                            val = vf.src(sets[0]["b"])
-                            ctx.site(rid, "convert_rule|%s" % flag, BRIDGE, i["l"], {"cond": c, "value": val})
-                            if "Rule::" + rule_name not in c or "==" not in c or val != "true":
-                                ctx.violation(rid, "convert_rule|%s" % flag, BRIDGE, i["l"],
-                                              "%s is set to %s under `%s`; it must be true exactly for a Rule::%s child" % (flag, val, c, rule_name))
-        if not found:
-            ctx.violation(rid, "convert_rule|%s|missing" % flag, BRIDGE, fi.line, "no assignment of %s under a Rule::%s test found" % (flag, rule_name))
-        # initial value false, field passes the variable through
-        for loc in vf.find(fi.node, "local"):
-            if loc["pat"].get("k") == "pid" and loc["pat"]["n"] == flag:
-                if vf.src(loc.get("init")) != "false":
-                    ctx.violation(rid, "convert_rule|%s|init" % flag, BRIDGE, loc["l"], "%s starts as %s" % (flag, vf.src(loc.get("init"))))
-        for s in vf.find(fi.node, "struct"):
-            for fl in s["fields"]:
-                if fl["n"] == flag and vf.src(fl["e"]) != flag:
-                    ctx.violation(rid, "convert_rule|%s|field" % flag, BRIDGE, fl["l"], "field %s is built from `%s`" % (flag, vf.src(fl["e"])))
-
-    check_flag("is_type_choice_alternate", "assign_t_choice", "assign_t")
-    check_flag("is_group_choice_alternate", "assign_g_choice", "assign_g")
-    # sockets
-    ci = f.fn(BRIDGE, "convert_identifier")
-    want = {"socket_type": "SocketPlug::TYPE", "socket_group": "SocketPlug::GROUP"}
-    for m in vf.find(ci.node, "match"):
-        for arm in m["arms"]:
-            p = vf.pat_path(arm["pat"])
-            if p and p[6:] in want:
-                vals = [vf.src(a["b"]) for a in flag_assignments(arm["body"], "socket")]
-                ctx.site(rid, "convert_identifier|%s" % p[6:], BRIDGE, arm["l"], {"assigns": vals})
-                if vals != ["Some(%s)" % want[p[6:]]]:
-                    ctx.violation(rid, "convert_identifier|%s" % p[6:], BRIDGE, arm["l"],
-                                  "Rule::%s sets socket to %s, expected Some(%s)" % (p[6:], vals, want[p[6:]]))
-                want.pop(p[6:])
-    for r in want:
-        ctx.violation(rid, "convert_identifier|%s|missing" % r, BRIDGE, ci.line, "no arm for Rule::%s in convert_identifier" % r)
-    # ident text must come from the id child (socket prefix excluded) and be stored unchanged
-    # range operator
-    t1 = f.fn(BRIDGE, "convert_type1")
-    ok = False
-    for loc in vf.find(t1.node, "local"):
-        if loc["pat"].get("k") == "pid" and loc["pat"]["n"] == "is_inclusive":
-            s = vf.src(loc["init"]) if loc.get("init") else ""
-            txt = json.dumps(loc.get("init"))
-            ctx.site(rid, "convert_type1|is_inclusive", BRIDGE, loc["l"], {"init": s[:200]})
-            if "Rule::range_op_inclusive" in txt and '"op": "=="' in txt and '"m": "any"' in txt and "Rule::range_op_exclusive" not in txt and '"op": "!"' not in txt:
-                ok = True
-    if not ok:
-        ctx.violation(rid, "convert_type1|is_inclusive", BRIDGE, t1.line,
-                      "is_inclusive is not computed as `any child == Rule::range_op_inclusive`")
 
 
 OCC_CASES = [("occur_optional", "?", ("Optional", None, None)), ("occur_zero_or_more", "*", ("ZeroOrMore", None, None)),
@@ -492,8 +431,195 @@ def r_occur(ctx, g):
                               "convert_occurrence turns `%s` into %r; the grammar derivation is %r" % (text, got if got else res, want))
 
 
+def r_rulehead(ctx, g):
+    import absint
+    from absint import Interp, Return, Unknown, OPAQUE, PyIter
+    rid = "C03.rulehead"
+    ctx.rule(rid, "convert_rule / convert_identifier on a grammar-shaped rule pair: a typename head gives Rule::Type, a groupname head "
+                  "Rule::Group; the name and the socket prefix ($ -> TYPE, $$ -> GROUP, none -> None) are those written; `/=` sets "
+                  "is_type_choice_alternate and `//=` is_group_choice_alternate and `=` neither; generic parameters are present exactly "
+                  "when written; the value / entry is the converted type expression / group entry (abstract evaluation, sub-converters "
+                  "scripted)", floor=16)
+    f = ctx.facts
+    B = "src/pest_bridge.rs"
+    for need in ("rule", "typename", "groupname", "assign_t", "assign_g", "assign", "assign_t_choice", "assign_g_choice", "socket_type", "socket_group", "id"):
+        if need not in g.rules:
+            raise vf.Incomplete("grammar rule %s missing" % need)
+
+    def P(rule, text="", *kids):
+        return ("enum", "Pair", {"rule": rule, "text": text, "children": list(kids)})
+    fr = {}
+    for fi in f.fns(B):
+        if fi.impl_self is None and not fi.in_test and fi.name in ("convert_rule", "convert_identifier") and absint.default_cfg_all(fi.node) and all(absint.default_cfg(c) for c in fi.cfg):
+            fr.setdefault(fi.name, fi)
+    if len(fr) != 2:
+        raise vf.Incomplete("convert_rule / convert_identifier not found")
+    for kind in ("typename", "groupname"):
+        for sock, sockrule in ((None, None), ("$", "socket_type"), ("$$", "socket_group")):
+            for assign in (("assign", "="), ("assign_t_choice", "/=")) if kind == "typename" else (("assign", "="), ("assign_g_choice", "//=")):
+                for generic in (False, True):
+                    key = "%s|%s%s|%s|%s" % (kind, sock or "", "name", assign[1], "generic" if generic else "plain")
+                    idkids = ([P(sockrule, sock)] if sock else []) + [P("id", "name")]
+                    head = P(kind, (sock or "") + "name", *idkids)
+                    kids = [head]
+                    if generic:
+                        kids.append(P("generic_params", "<t>"))
+                    kids.append(P("assign_t" if kind == "typename" else "assign_g", assign[1], P(assign[0], assign[1])))
+                    kids.append(P("type_expr" if kind == "typename" else "group_entry", "body"))
+                    pair = P("rule", "", *kids)
+
+                    def on_call(knd, name, node, args, recv):
+                        if knd == "method" and isinstance(recv, tuple) and recv[:2] == ("enum", "Pair"):
+                            d = recv[2]
+                            if name == "as_rule":
+                                return ("enum", "Rule::" + d["rule"], [])
+                            if name == "into_inner":
+                                return PyIter(d["children"])
+                            if name == "as_str":
+                                return ("str", d["text"])
+                            if name == "as_span":
+                                return OPAQUE
+                            if name == "clone":
+                                return recv
+                        if knd == "fn" and name:
+                            b = name.split("::")[-1]
+                            if b == "convert_identifier":
+                                fn = fr[b]
+                                names = [i["pat"]["n"] for i in fn.node["sig"]["inputs"] if "pat" in i and i["pat"]["k"] == "pid"]
+                                sub = Interp(env=dict(zip(names, args)), cfg=absint.default_cfg, on_call=on_call)
+                                try:
+                                    return sub.block(fn.node["body"])
+                                except Return as r:
+                                    return r.v
+                            if b in ("convert_generic_params", "convert_type_expr", "convert_group_entry"):
+                                return ("Ok", ("converted", b, args[0][2]["text"] if isinstance(args[0], tuple) else None))
+                            if b in ("pest_span_to_ast_span", "pest_span_to_position"):
+                                return OPAQUE
+                        return NotImplemented
+                    it = Interp(env={"pair": pair, "input": OPAQUE}, cfg=absint.default_cfg, on_call=on_call)
+                    try:
+                        try:
+                            res = it.block(fr["convert_rule"].node["body"])
+                        except Return as r:
+                            res = r.v
+                    except Unknown as e:
+                        ctx.incomplete_msg(rid, "%s: %s" % (key, e))
+                        continue
+                    got = None
+                    if isinstance(res, tuple) and res[0] == "Ok" and isinstance(res[1], tuple) and res[1][:1] == ("enum",):
+                        var = res[1][1].split("::")[-1]
+                        inner = res[1][2].get("rule") if isinstance(res[1][2], dict) else None
+                        if isinstance(inner, tuple) and inner[:1] == ("Box",):
+                            inner = inner[1]
+                        if isinstance(inner, tuple) and inner[:1] == ("enum",) and isinstance(inner[2], dict):
+                            fl = inner[2]
+                            nm = fl.get("name")
+                            nmf = nm[2] if isinstance(nm, tuple) and nm[:1] == ("enum",) and isinstance(nm[2], dict) else {}
+                            sk = nmf.get("socket")
+                            sk = None if sk in (None, ("None",)) else (sk[1][1].split("::")[-1] if isinstance(sk, tuple) and sk[0] == "Some" and isinstance(sk[1], tuple) else repr(sk))
+                            idv = nmf.get("ident")
+                            got = {"variant": var, "ident": idv[1] if isinstance(idv, tuple) and idv[:1] == ("str",) else repr(idv), "socket": sk,
+                                   "alt": fl.get("is_type_choice_alternate", fl.get("is_group_choice_alternate")),
+                                   "generic": isinstance(fl.get("generic_params"), tuple) and fl["generic_params"][0] == "Some",
+                                   "body": (fl.get("value") or fl.get("entry"))}
+                    want = {"variant": "Type" if kind == "typename" else "Group", "ident": "name", "socket": {None: None, "$": "TYPE", "$$": "GROUP"}[sock],
+                            "alt": assign[0] != "assign", "generic": generic,
+                            "body": ("converted", "convert_type_expr" if kind == "typename" else "convert_group_entry", "body")}
+                    ctx.site(rid, key, B, fr["convert_rule"].line, {"ast": repr(got)[:160]})
+                    if got != want:
+                        diff = [k for k in want if got is None or got.get(k) != want[k]]
+                        ctx.violation(rid, "%s|%s" % (kind, ",".join(diff)), B, fr["convert_rule"].line,
+                                      "convert_rule on `%sname%s %s ...` (%s): AST has %s, the derivation says %s"
+                                      % (sock or "", "<t>" if generic else "", assign[1], kind,
+                                         {k: (got or {}).get(k) for k in diff}, {k: want[k] for k in diff}))
+
+
+def r_type1(ctx, g):
+    import absint
+    from absint import Interp, Return, Unknown, OPAQUE, PyIter
+    rid = "C03.type1"
+    ctx.rule(rid, "convert_type1 on a grammar-shaped type1 pair: `A` gives no operator; `A .. B` a RangeOp with is_inclusive = true and `A ... B` "
+                  "with is_inclusive = false, lower operand A and upper operand B in that order; `A .ctl B` a CtlOp with the converted control "
+                  "name, target A and controller B (abstract evaluation, convert_type2 / convert_control_operator scripted)", floor=4)
+    f = ctx.facts
+    B = "src/pest_bridge.rs"
+    fi = None
+    for x in f.fn_all(B, "convert_type1"):
+        if all(absint.default_cfg(c) for c in x.cfg):
+            fi = x
+    if fi is None:
+        raise vf.Incomplete("convert_type1 not found")
+    for need in ("type1", "type2", "range_op", "range_op_inclusive", "range_op_exclusive", "control_op", "controller"):
+        if need not in g.rules:
+            raise vf.Incomplete("grammar rule %s missing" % need)
+    ch = g.children("type1")
+
+    def P(rule, text="", *kids):
+        return ("enum", "Pair", {"rule": rule, "text": text, "children": list(kids)})
+    cases = {"plain": ([P("type2", "A")], None),
+             "range ..": ([P("type2", "A"), P("range_op", "..", P("range_op_inclusive", "..")), P("type2", "B")], ("RangeOp", True)),
+             "range ...": ([P("type2", "A"), P("range_op", "...", P("range_op_exclusive", "...")), P("type2", "B")], ("RangeOp", False)),
+             "control": ([P("type2", "A"), P("control_op", ".size", P("control_name", "size")), P("controller", "B", P("type2", "B"))], ("CtlOp", "CTRL(.size)"))}
+    for cname, (kids, want) in cases.items():
+        for k in kids:
+            if k[2]["rule"] not in ch:
+                ctx.incomplete_msg(rid, "type1 cannot contain %s per cddl.pest" % k[2]["rule"])
+        pair = P("type1", cname, *kids)
+
+        def on_call(knd, name, node, args, recv):
+            if knd == "method" and isinstance(recv, tuple) and recv[:2] == ("enum", "Pair"):
+                d = recv[2]
+                if name == "as_rule":
+                    return ("enum", "Rule::" + d["rule"], [])
+                if name == "into_inner":
+                    return PyIter(d["children"])
+                if name == "as_str":
+                    return ("str", d["text"])
+                if name == "as_span":
+                    return OPAQUE
+                if name == "clone":
+                    return recv
+            if knd == "fn" and name:
+                b = name.split("::")[-1]
+                if b == "convert_type2":
+                    return ("Ok", ("enum", "Type2::Converted", {"text": args[0][2]["text"]}))
+                if b == "convert_control_operator":
+                    return ("Ok", ("str", "CTRL(%s)" % args[0][2]["text"]))
+                if b in ("pest_span_to_ast_span", "pest_span_to_position", "default"):
+                    return OPAQUE
+            return NotImplemented
+        it = Interp(env={"pair": pair, "input": OPAQUE}, cfg=absint.default_cfg, on_call=on_call)
+        try:
+            try:
+                res = it.block(fi.node["body"])
+            except Return as r:
+                res = r.v
+        except Unknown as e:
+            ctx.incomplete_msg(rid, "%s: %s" % (cname, e))
+            continue
+        got = None
+        if isinstance(res, tuple) and res[0] == "Ok" and isinstance(res[1], tuple) and isinstance(res[1][2], dict):
+            t1 = res[1][2]
+            txt = lambda v: v[2].get("text") if isinstance(v, tuple) and v[:1] == ("enum",) and isinstance(v[2], dict) else repr(v)
+            op = t1.get("operator")
+            if op in (None, ("None",)):
+                got = (txt(t1.get("type2")), None, None)
+            elif isinstance(op, tuple) and op[0] == "Some" and isinstance(op[1], tuple) and isinstance(op[1][2], dict):
+                o = op[1][2]
+                oo = o.get("operator")
+                kind = oo[1].split("::")[-1] if isinstance(oo, tuple) and oo[:1] == ("enum",) else repr(oo)
+                det = oo[2].get("is_inclusive") if kind == "RangeOp" else (oo[2].get("ctrl") if isinstance(oo[2], dict) else None)
+                if isinstance(det, tuple) and det[:1] == ("str",):
+                    det = det[1]
+                got = (txt(t1.get("type2")), (kind, det), txt(o.get("type2")))
+        exp = ("A", want, "B" if want else None)
+        ctx.site(rid, cname, B, fi.line, {"ast": repr(got)})
+        if got != exp:
+            ctx.violation(rid, cname, B, fi.line, "convert_type1 on %s gives (first operand, operator, second operand) = %r; the derivation is %r" % (cname, got, exp))
+
+
 def run(ctx):
     g = pestg.G(ctx.facts.grammar())
     for name, fn in (("C03.prefix", r_prefix), ("C03.ctltable", r_ctltable), ("C03.juncture", r_juncture),
-                     ("C03.children", r_children), ("C03.order", r_order), ("C03.assign", r_assign), ("C03.occur", r_occur)):
+                     ("C03.children", r_children), ("C03.order", r_order), ("C03.assign", r_assign), ("C03.occur", r_occur), ("C03.rulehead", r_rulehead), ("C03.type1", r_type1)):
         ctx.guarded(name, lambda c, fn=fn: fn(c, g))
